@@ -308,11 +308,36 @@ def gen_queries(D, family):
         return trees_depth2(lv)
     if family == "d2_terms":
         return trees_depth2(terms)
+    if family == "boost0":
+        # clauses whose score is zero or negative: which documents match (and
+        # how many len(results) reports under a limit) must not depend on scores
+        return boost0_family(terms, D)
     if family == "array":
         # queries executed by ArrayUnionMatcher: 3-clause Or / DisMax-free
         # trees and multi-term expansions (alone, negated, under And/AndNot)
         return array_family(terms, D)
     raise ValueError(family)
+
+
+def boost0_family(terms, D):
+    multi = [l for l in special_leaves(D) if l[0] in ("prefix", "wild", "regex", "trange", "fuzzy", "nrange", "phrase")]
+    some = terms[1::4]
+    for f in (0.0, -1.0):
+        for m in multi + (terms if f == 0.0 else []):
+            z = ["boost", m, f]
+            yield z
+            yield ["not", z]
+            for a in (terms if (m in multi and f == 0.0) else some):
+                yield ["or", [a, z]]
+                yield ["dismax", [a, z]]
+                yield ["and", [a, z]]
+                yield ["andnot", z, a]
+                yield ["andmaybe", a, z]
+                yield ["require", z, a]
+        for m in multi:
+            for a in some:
+                for b in some:
+                    yield ["or", [a, ["boost", m, f], b]]
 
 
 def array_family(terms, D):
@@ -510,7 +535,7 @@ def run(ctx):
     seed = ctx.seed
     tasks = []
     if ctx.tier == "quick":
-        plan = [(4, "d1", "mixed", 8), (3, "d2_terms", "light", 8)]
+        plan = [(4, "d1", "mixed", 8), (3, "d2_terms", "light", 8), (4, "boost0", "mixed", 2)]
     else:
         # (D, family, paths, slices, layout set)
         # sized with VERIF_PROGRESS=1 to ~40 minutes on 16 cores
@@ -519,7 +544,8 @@ def run(ctx):
                 (4, "d1_noternary", "light", 4, "thorough"),  # every deletion subset x composition
                 (3, "d2", "mixed", 8, "mid"),
                 (4, "d2_terms", "light", 32, "quick"),
-                (5, "d1_noternary", "light", 8, "comps")]   # every segment composition of 5 documents
+                (5, "d1_noternary", "light", 8, "comps"),   # every segment composition of 5 documents
+                (4, "boost0", "full", 4, "mid")]
     plan = [p if len(p) == 5 else p + ("quick",) for p in plan]
     nlay = 0
     for D, family, pm, nsl, lset in plan:
@@ -546,7 +572,9 @@ def run(ctx):
                 "(one term per subset of documents => every posting-list alignment) x every "
                 "segment composition x deletion family x access path; a case (index variant, "
                 "query) is non-trivial when the reference result is neither empty nor all live "
-                "documents; cases are enumerated without repetition so each counted case is distinct; plus every "
+                "documents; cases are enumerated without repetition so each counted case is distinct; family boost0: every "
+                "leaf (all terms and the expanding / range / phrase leaves) with boost 0 and -1, alone, negated and beside every "
+                "term under Or/DisMax/And/AndNot/AndMaybe/Require and in 3-clause Or, through every access path; plus every "
                 "term-expanding pattern: every Regex string that compiles up to length 7 (thorough 8; alphabet "
                 "a b . * | ( ) ? below the maximal length, a b | ( ) at it), every Wildcard string up to length 4 (5) over a b * ?, every "
                 "Prefix, against a lexicon holding every word of length <= 3 over {a, b, c}")
